@@ -359,28 +359,67 @@ theorem everyNth_cons (n : Nat) (y : Val) (ys : List Val) :
   simp [everyNth, everyNthAux]
   exact everyNthAux_drop n (n - 1) ys
 
-theorem step_fwd (n : Nat) (c : Co) (s : c.σ) (ys : List Val) (h : Fwd c s ys) :
-    Fwd (stepCo n c) s (everyNth n ys) := by
-  apply fwd_coind (stepCo n c) (fun (s : c.σ) xs => ∃ ys, Fwd c s ys ∧ xs = everyNth n ys)
-  · intro (s : c.σ) ⟨ys, h, e⟩
-    cases ys with
-    | cons y ys => rw [everyNth_cons] at e; simp at e
-    | nil =>
-      have ⟨h1, h2⟩ := fwd_nil.mp h
-      have := pullN_fwd c (n - 1) (c.next s).st [] h2
-      refine ⟨by simp [stepCo, h1], [], ?_, rfl⟩
-      simpa [stepCo] using this
-  · intro (s : c.σ) x xs ⟨ys, h, e⟩
-    cases ys with
-    | nil => simp [everyNth, everyNthAux] at e
-    | cons y ys =>
-      rw [everyNth_cons] at e
-      simp at e
-      have ⟨h1, h2⟩ := fwd_cons.mp h
-      have := pullN_fwd c (n - 1) (c.next s).st ys h2
-      refine ⟨by simp [stepCo, h1, e.1], ys.drop (n - 1), ?_, e.2⟩
-      simpa [stepCo] using this
+theorem everyNth_nil (n : Nat) : everyNth n [] = [] := by simp [everyNth, everyNthAux]
+
+theorem everyNth_head (n : Nat) (zs : List Val) : (everyNth n zs).head? = zs.head? := by
+  cases zs with
+  | nil => rw [everyNth_nil]
+  | cons z zs => rw [everyNth_cons]; rfl
+
+/-- one call of the lazy `Step` from `pending = k` is `Iterator::nth(k)` on the input: the `k` pending
+skips (stopping at the first `None`) and then the pull of the value itself — nothing after it -/
+theorem step_next_eq (n : Nat) (c : Co) (st : c.σ × Nat) :
+    ((stepCo n c).next st).out = (nth c st.2 st.1).out ∧
+    ((stepCo n c).next st).st.1 = (nth c st.2 st.1).st ∧
+    ((stepCo n c).next st).ev = (nth c st.2 st.1).ev ∧
+    ((stepCo n c).next st).st.2 = (if (nth c st.2 st.1).out.isSome then n - 1 else 0) := by
+  simp only [stepCo, nth]
+  generalize advance c st.2 st.1 = r
+  obtain ⟨ok, s', e⟩ := r
+  cases ok with
+  | true => exact ⟨rfl, rfl, rfl, rfl⟩
+  | false => exact ⟨rfl, rfl, rfl, rfl⟩
+
+theorem step_fwd_gen (n : Nat) (c : Co) (s : c.σ) (k : Nat) (ys : List Val) (h : Fwd c s ys) :
+    Fwd (stepCo n c) (s, k) (everyNth n (ys.drop k)) := by
+  apply fwd_coind (stepCo n c)
+    (fun (st : c.σ × Nat) xs => ∃ ys, Fwd c st.1 ys ∧ xs = everyNth n (ys.drop st.2))
+  · intro (st : c.σ × Nat) ⟨ys, h, e⟩
+    have ⟨e1, e2, _, e4⟩ := step_next_eq n c st
+    have ⟨n1, n2⟩ := nth_fwd c st.2 st.1 ys h
+    have hz : ys.drop st.2 = [] := by
+      cases hd : ys.drop st.2 with
+      | nil => rfl
+      | cons z zs => rw [hd, everyNth_cons] at e; simp at e
+    have ho : (nth c st.2 st.1).out = none := by rw [n1, hz]; rfl
+    refine ⟨by rw [e1, ho], ys.drop (st.2 + 1), by rw [e2]; exact n2, ?_⟩
+    rw [e4, ho]
+    have : ys.drop (st.2 + 1) = [] := by
+      have := congrArg List.tail hz
+      simpa [List.tail_drop] using this
+    simp [this, everyNth_nil]
+  · intro (st : c.σ × Nat) x xs ⟨ys, h, e⟩
+    have ⟨e1, e2, _, e4⟩ := step_next_eq n c st
+    have ⟨n1, n2⟩ := nth_fwd c st.2 st.1 ys h
+    cases hd : ys.drop st.2 with
+    | nil => rw [hd, everyNth_nil] at e; simp at e
+    | cons z zs =>
+      rw [hd, everyNth_cons] at e
+      have ⟨ex, exs⟩ := List.cons.inj e
+      have ho : (nth c st.2 st.1).out = some z := by rw [n1, hd]; rfl
+      have hzs : ys.drop (st.2 + 1) = zs := by
+        have := congrArg List.tail hd
+        simpa [List.tail_drop] using this
+      refine ⟨by rw [e1, ho, ex], ys.drop (st.2 + 1), by rw [e2]; exact n2, ?_⟩
+      rw [e4, ho, exs]
+      simp only [Option.isSome_some, if_true]
+      rw [List.drop_drop, ← hzs, List.drop_drop]
   · exact ⟨ys, h, rfl⟩
+
+theorem step_fwd (n : Nat) (c : Co) (s : c.σ) (ys : List Val) (h : Fwd c s ys) :
+    Fwd (stepCo n c) (s, 0) (everyNth n ys) := by
+  have := step_fwd_gen n c s 0 ys h
+  simpa using this
 
 theorem keepLoop_fwd (p : Pred) (c : Co) : ∀ (fuel : Nat) (s : c.σ) (ys : List Val),
     Fwd c s ys → ys.length < fuel →
